@@ -438,7 +438,7 @@ class Interp:
             if normal is not None:
                 jq = z3.Int("lj!q")
                 body = z3.substitute(normal, (j0, jq))
-                self.cx.assume(z3.ForAll([jq], z3.Implies(z3.And(0 <= jq, jq < n), body)), tag="stateless-loop summary")
+                self.cx.assume(V.forall([jq], z3.Implies(z3.And(0 <= jq, jq < n), body)), tag="stateless-loop summary")
             return
         # -- invariant protocol
         for label, f in spec.inv(self.cx, frame, z3.IntVal(0)):
